@@ -326,3 +326,89 @@ func (g *BadA3Parked) compact(r *rtcpRecord) []rtcp.Packet {
 	}
 	return out
 }
+
+// ---- per-packet function given as a method value of a small object --------------------------------------------------
+
+type GoodA2MethodObj struct {
+	next interceptor.RTPReader
+	rec  *recorder
+}
+
+func (r *GoodA2MethodObj) read(b []byte, a interceptor.Attributes) (int, interceptor.Attributes, error) {
+	n, attr, err := r.next.Read(b, a)
+	if err != nil {
+		return 0, nil, err
+	}
+	if n > 3 {
+		r.rec.record(uint16(b[2])<<8 | uint16(b[3]))
+	}
+	return n, attr, nil
+}
+
+type GoodA2Method struct {
+	interceptor.NoOp
+	rec recorder
+}
+
+func (g *GoodA2Method) BindRemoteStream(_ *interceptor.StreamInfo, r interceptor.RTPReader) interceptor.RTPReader {
+	obj := &GoodA2MethodObj{next: r, rec: &g.rec}
+	return interceptor.RTPReaderFunc(obj.read)
+}
+
+type BadA2MethodObj struct {
+	next interceptor.RTPReader
+	rec  *recorder
+}
+
+// read swallows the wrapped reader's error.
+func (r *BadA2MethodObj) read(b []byte, a interceptor.Attributes) (int, interceptor.Attributes, error) {
+	n, attr, err := r.next.Read(b, a)
+	if err != nil {
+		return 0, attr, nil
+	}
+	return n, attr, nil
+}
+
+type BadA2Method struct {
+	interceptor.NoOp
+	rec recorder
+}
+
+func (g *BadA2Method) BindRemoteStream(_ *interceptor.StreamInfo, r interceptor.RTPReader) interceptor.RTPReader {
+	obj := &BadA2MethodObj{next: r, rec: &g.rec}
+	return interceptor.RTPReaderFunc(obj.read)
+}
+
+type GoodA1MethodObj struct {
+	next interceptor.RTPWriter
+}
+
+func (w *GoodA1MethodObj) write(h *rtp.Header, p []byte, a interceptor.Attributes) (int, error) {
+	return w.next.Write(h, p, a)
+}
+
+type GoodA1Method struct{ interceptor.NoOp }
+
+func (g *GoodA1Method) BindLocalStream(_ *interceptor.StreamInfo, w interceptor.RTPWriter) interceptor.RTPWriter {
+	obj := &GoodA1MethodObj{next: w}
+	return interceptor.RTPWriterFunc(obj.write)
+}
+
+type BadA1MethodObj struct {
+	next interceptor.RTPWriter
+}
+
+// write drops packets with the marker bit.
+func (w *BadA1MethodObj) write(h *rtp.Header, p []byte, a interceptor.Attributes) (int, error) {
+	if h.Marker {
+		return len(p), nil
+	}
+	return w.next.Write(h, p, a)
+}
+
+type BadA1Method struct{ interceptor.NoOp }
+
+func (g *BadA1Method) BindLocalStream(_ *interceptor.StreamInfo, w interceptor.RTPWriter) interceptor.RTPWriter {
+	obj := &BadA1MethodObj{next: w}
+	return interceptor.RTPWriterFunc(obj.write)
+}
